@@ -87,4 +87,55 @@ CLAIMED = {
          "(harness/drv/memstream.go, mirrored by Model/Transport.v). The model sits on the three-FIFO specification of "
          "ByteBuffer (C09). Real sockets are covered by C02, not here."),
    technique="Coq refinement proof (decoder = pure parser; induction over transport segmentations; round-trip law); differential correspondence + extracted oracle"),
+ "C06": dict(
+   text=("Coq theorems (4, closed): over ANY segmentation of the inbound bytes by the transport (any chunking, cuts inside "
+         "headers, would-block, EOF, errors, bytes left over in the read buffer) ReadNext/AsyncReadNext with the frame "
+         "codec deliver a frame iff it is byte-for-byte the next frame of the stream and otherwise lose nothing "
+         "(induction over the transport queue, on top of C07's decoder refinement); the blocking and asynchronous paths "
+         "deliver the same frame; message reassembly step lemmas (controls go to the callback and leave the message "
+         "untouched; fragments are appended in order, type of the first frame, reported length = payload length). The "
+         "whole-stream model is compared with the real Stream after every call on conforming sessions split at every "
+         "1-/2-cut of short streams and random chunkings, for NextFrame, AsyncNextFrame, NextMessage, AsyncNextMessage, "
+         "with length classes up to 65535/65536/max; the extracted RFC session oracle re-derives frames and messages "
+         "from the raw inbound bytes independently. PARTIAL: the end-to-end statement 'for all conforming message "
+         "sequences the message API returns exactly those messages' is proved per frame step, not as one induction over "
+         "whole message sequences."),
+   note="Trusted: Coq kernel, translator (constants, opcode predicates, ValidCloseCode), extraction, harness incl. the in-memory transport and the VerifAttach hook (client role after the handshake). Masking keys are an environment input taken from the implementation's wire. UTF-8 validation of text payloads (off by default), the server role and TLS are not modelled. Real sockets and event-loop interleavings are C17's/C01's subject.",
+   technique="Coq proof (induction over transport segmentations, decoder refinement) + step lemmas; differential correspondence + extracted RFC session oracle"),
+ "C08": dict(
+   text=("Coq theorems (11, closed): for EVERY sequence (no length bound, induction over the operation list) of peer events "
+         "and local calls, from the fresh stream: at most one Close frame is ever queued for the wire, nothing is queued "
+         "after it and none while Active; on a healthy transport the wire is frame by frame a prefix of what was queued, "
+         "in order (so Pongs precede later application frames, no second Close, no data after Close); each Ping while "
+         "Active queues exactly one Pong with the identical payload, Pongs queue nothing; the peer's Close is answered "
+         "once (echo / 1000 / 1002) and the state becomes ClosedByPeer; reads after the handshake report EOF; writes are "
+         "refused when not Active; local Close -> ClosedByUs; the peer's Close after ours -> CloseAcked; unexpected EOF -> "
+         "1006 + Terminated. The model is compared with the real Stream on sampled sequences of length 2-4 over 16 peer "
+         "events x 13 local calls from 5 start states and random sessions; the extracted RFC session oracle judges wire, "
+         "State() and refusals independently."),
+   note="Trusted: Coq kernel, translator (constants, opcode predicates, ValidCloseCode), extraction, harness incl. the in-memory transport and the VerifAttach hook (client role after the handshake). Masking keys are an environment input taken from the implementation's wire. UTF-8 validation of text payloads (off by default), the server role and TLS are not modelled. Real sockets and event-loop interleavings are C17's/C01's subject.",
+   technique="Coq invariant proofs by induction over histories (close-frame invariant, wire = queue order) + state-machine lemmas; differential correspondence + extracted oracle"),
+ "C15": dict(
+   text=("Coq theorems (6, closed): handleFrame (used by every read API) reports an error iff the frame violates the framing "
+         "rules, and these are exactly the arithmetic RFC 6455 rules (RSV bits, masked frame from a server, reserved "
+         "opcode, fragmented control frame, control frame > 125) for every byte string (byte-level sweep lifted by "
+         "forallb_forall); after a violation while Active: ClosedByUs with exactly one Close(1002) queued and writes "
+         "refused, otherwise nothing changes; the message API delivers nothing of an errored frame; fragmentation rules; "
+         "oversized frames are rejected by the decoder (C07). Every single-violation mutation (12 kinds) at every position "
+         "of 3 conforming sessions under splits, for all 4 read APIs, fragmentation violations and size limits are run "
+         "against the real Stream and judged by the extracted oracle."),
+   note="Trusted: Coq kernel, translator (constants, opcode predicates, ValidCloseCode), extraction, harness incl. the in-memory transport and the VerifAttach hook (client role after the handshake). Masking keys are an environment input taken from the implementation's wire. UTF-8 validation of text payloads (off by default), the server role and TLS are not modelled. Real sockets and event-loop interleavings are C17's/C01's subject.",
+   technique="Coq proof (error iff RFC violation, byte-sweep lifted to all inputs, state consequences); differential correspondence + extracted oracle"),
+ "C16": dict(
+   text=("Coq theorems (5, closed): every frame the client queues (application messages of every size < 2^63, caller-built "
+         "frames with or without payload, automatic Pong/Close) followed by any bytes parses as exactly one frame with "
+         "mask bit set, 4-byte key, un-masking = submitted bytes, shortest length encoding, FIN/opcode as submitted, exactly "
+         "header + declared payload bytes; for every history on a healthy transport (partial accepts looped over) the "
+         "wire is, in submission order and frame by frame, what was queued, and after a flush nothing is left; a message "
+         "above the maximum is refused without writing anything. The model is compared with the real Stream for sizes "
+         "0..70001 in shuffled order (pool reuse after longer and shorter frames), caller-built frames with/without "
+         "SetPayload, sync/async, transports accepting 1/7/all bytes per call, failure at every offset; every wire frame "
+         "is re-parsed and un-masked by the extracted oracle."),
+   note="Trusted: Coq kernel, translator (constants, opcode predicates, ValidCloseCode), extraction, harness incl. the in-memory transport and the VerifAttach hook (client role after the handshake). Masking keys are an environment input taken from the implementation's wire. UTF-8 validation of text payloads (off by default), the server role and TLS are not modelled. Real sockets and event-loop interleavings are C17's/C01's subject.",
+   technique="Coq proof (round-trip law + wire invariant by induction over histories); differential correspondence + extracted parser oracle"),
 }
